@@ -52,6 +52,8 @@ STRUCTS = {
                    dict(motif='collinear3', pose='rz-90', at=(9.0, 3.5, 1.0))], 'collinear3'),
     'S31': ('t5', [dict(motif='chiral4', pose='rz90', at=(5.0, 1.5, 2.0)), dict(motif='chiral4', pose='p4', at=(11.0, 3.0, 6.5), kind='mirror'),
                    dict(motif='chiral4', pose='p2', at=(13.0, 4.5, 4.0))], 'chiral4'),
+    # two copies whose orientations differ by 0.13 degrees (a quaternion rounded to two decimals does not tell them apart)
+    'S32': ('o1', [dict(motif='chiral4', pose='p3', at=(2.0, 3.0, 4.0)), dict(motif='chiral4', pose='p3t', at=(6.5, 7.0, 8.0))], 'chiral4'),
     # orthogonal cell whose vectors are not axis-aligned
     'S22': ('orot', [dict(motif='chiral4', pose='p1', at=(1.0, 6.0, 4.0)), dict(motif='chiral4', pose='p4', at=(-3.0, 9.0, 9.0)),
                      dict(motif='chiral4', pose='p2', at=(-1.0, 3.0, 7.0), kind='mirror')], 'chiral4'),
